@@ -461,6 +461,17 @@ func semanticCases(tr *Trace, p *poolProc, control *rawWS, ctl *int, rng *rand.R
 		pi.Network.RemoteAddress = filler(rng)
 		cases = append(cases, sem{"signed", "vipnode_update", signed("vipnode_update", me.nodeID, false, pool.UpdateRequest{PeerInfo: []ethnode.PeerInfo{pi, pi}, BlockNumber: ^uint64(0)})})
 	}
+	// every truncation of a peer's enode URI (peer descriptions are cut, padded and mangled by the clients' nodes)
+	fullEnode := "enode://" + strings.Repeat("c", 128) + "@10.0.0.1:30303"
+	for n := 0; n <= len(fullEnode); n++ {
+		pi := ethnode.PeerInfo{ID: strings.Repeat("c", 128)[:n%129], Enode: fullEnode[:n]}
+		cases = append(cases, sem{"signed", "vipnode_update", signed("vipnode_update", me.nodeID, false, pool.UpdateRequest{PeerInfo: []ethnode.PeerInfo{pi}, BlockNumber: 1})})
+	}
+	// and of the node URI a host registers with
+	fullURI := "enode://" + me.nodeID + "@[2001:db8::1]:30303?discport=1"
+	for n := 0; n <= len(fullURI); n += 1 + n/20 {
+		cases = append(cases, sem{"signed", "vipnode_connect", signed("vipnode_connect", me.nodeID, false, pool.ConnectRequest{NodeInfo: ethnode.UserAgent{Kind: ethnode.Geth, IsFullNode: true}, NodeURI: fullURI[:n]})})
+	}
 	big := make([]ethnode.PeerInfo, 5000)
 	for i := range big {
 		big[i].ID = fmt.Sprintf("%0128x", i)
